@@ -157,6 +157,14 @@ example : descend (trieNav exItems) [0, 1].reverse 0 = LogP.fin (-11/8) := by de
 -- an unlisted unigram is -∞ however long the context
 example : descend (trieNav exItems) [2, 2].reverse 2 = LogP.negInf := by decide +kernel
 
+-- hypotheses of the window theorems on a concrete history (T = 3, B = 2) and index vector
+example : ∀ r ∈ ([[1, 0], [0, 2], [1, 2]] : List (List Int)), r.length = 2 := by decide
+example : ([3, 1] : List Nat).length = 2 ∧ ∀ x ∈ ([3, 1] : List Nat), x ≤ 3 := by decide
+-- the spec's context: order 4, position 1 of column 0 is `sos sos 1`
+example : context 4 (-1) (col [[1, 0], [0, 2], [1, 2]] 0) 1 = [-1, -1, 1] := by decide
+-- per-element windows share one padding but differ per element
+example : windowsVec 3 7 2 [[1, 0], [0, 2], [1, 2]] [3, 1] = [[0, 1], [7, 0]] := by decide
+
 end PdtVerif.NgramTrie
 
 namespace PdtVerif.NgramArpa
